@@ -81,6 +81,11 @@ def neighbours(u, f, answer_events):
             for nn in (chr(ord(name) + 1), chr(max(1, ord(name) - 1)), name + name):
                 ev(tags=[[nn, v]])
             ev(tags=[[name], ["x", v]])
+            # the same look-alike values, but created outside the filter's time window
+            for bound, dt in (("since", -1), ("since", -300), ("until", 1), ("until", 300)):
+                if bound in f:
+                    for nv in (v + "\x00", v + "\x00d\x01", v + "\x00" + v, v + "a"):
+                        ev(tags=[[name, nv]], created_at=max(1, f[bound] + dt))
     for pk in f.get("authors", [])[:2]:
         for salt in ("n1", "n2"):
             ev(key=ref.mined_key(pk[:2], salt))
